@@ -869,6 +869,43 @@ pub fn pin_vs_two_advances(ctl: &mut Ctl, at: u32) {
     ctl.finisher(10);
 }
 
+/// C18 in its use by try_advance: a scan that stalls (its predecessor entry was deleted under it)
+/// must give up, otherwise the epoch advances past a pinned participant it never visited.
+/// Needs 4 threads: registry order is head -> t3 (scanner) -> t2 -> t1 -> t0 (victim).
+pub fn stalled_scan(ctl: &mut Ctl, pause_at_load: usize) {
+    ctl.reset(&format!("dir:stalled_scan:{}", pause_at_load), 1, vec![vec![]]);
+    if ctl.nt() < 4 {
+        return;
+    }
+    verif::set_class_mask(site::CLASS_EBR | site::CLASS_LIST);
+    ctl.run(0, Op::Pin); // the victim, pinned in the current epoch
+    cycle(ctl, 3); // the scanner advances once: the victim now lags by one
+    ctl.run(3, Op::Pin);
+    let g = ctl.ps[3].guards.len() - 1;
+    ctl.start(3, Op::Advance(g));
+    // stop the scanner right before its k-th load of an entry's `next`
+    let mut loads = 0;
+    let mut n = 0;
+    while !ctl.idle(3) && n < 10_000 {
+        if ctl.ws[3].at == Some(site::L_IT_NEXT_LOAD) {
+            loads += 1;
+            if loads == pause_at_load {
+                break;
+            }
+        }
+        ctl.step(3);
+        n += 1;
+    }
+    // the two participants around the scanner's position exit (their entries get marked)
+    ctl.run(2, Op::HDrop);
+    ctl.run(1, Op::HDrop);
+    ctl.finish(3);
+    ctl.run(3, Op::Advance(g));
+    ctl.run(3, Op::Unpin(g));
+    verif::set_class_mask(site::CLASS_EBR);
+    ctl.finisher(6);
+}
+
 pub fn run_family(ctl: &mut Ctl, fam: &str) -> usize {
     let mut n = 0;
     let all = fam == "all";
@@ -905,6 +942,12 @@ pub fn run_family(ctl: &mut Ctl, fam: &str) -> usize {
                 two_advancers(ctl, a, b);
                 n += 1;
             }
+        }
+    }
+    if fam == "c18" {
+        for k in 1..=5 {
+            stalled_scan(ctl, k);
+            n += 1;
         }
     }
     if all || fam == "c15" {
